@@ -114,15 +114,27 @@ func constTable(t *Term) []int64 {
 
 // evalAt evaluates an integer term whose only symbolic leaf (by rendering) is `leaf`, at leaf = v.
 func evalAt(t *Term, leaf string, v int64) (int64, bool) {
+	return evalEnv(t, map[string]int64{leaf: v})
+}
+
+// evalEnv evaluates an integer term whose symbolic leaves (by rendering) are the keys of env.
+func evalEnv(t *Term, env map[string]int64) (int64, bool) {
 	if n, ok := t.Int64(); ok {
 		return n, true
 	}
-	if !overTable(t) && t.String() == leaf {
-		return v, true
+	if !overTable(t) {
+		if v, ok := env[t.String()]; ok {
+			return v, true
+		}
+	}
+	leaf, v := "", int64(0)
+	for k, x := range env {
+		leaf, v = k, x
+		break
 	}
 	switch t.Op {
 	case "conv":
-		x, ok := evalAt(t.Args[0], leaf, v)
+		x, ok := evalEnv(t.Args[0], env)
 		if !ok || !isIntType(t.Typ) {
 			return 0, false
 		}
@@ -136,7 +148,7 @@ func evalAt(t *Term, leaf string, v int64) (int64, bool) {
 			}
 			return 0, false
 		}
-		i, ok := evalAt(t.Args[1], leaf, v)
+		i, ok := evalEnv(t.Args[1], env)
 		if !ok || i < 0 || i >= int64(len(tab)) {
 			return 0, false
 		}
@@ -147,8 +159,8 @@ func evalAt(t *Term, leaf string, v int64) (int64, bool) {
 		}
 		return 0, false
 	case "bin":
-		x, ok1 := evalAt(t.Args[0], leaf, v)
-		y, ok2 := evalAt(t.Args[1], leaf, v)
+		x, ok1 := evalEnv(t.Args[0], env)
+		y, ok2 := evalEnv(t.Args[1], env)
 		if !ok1 || !ok2 {
 			return 0, false
 		}
@@ -177,13 +189,29 @@ func evalAt(t *Term, leaf string, v int64) (int64, bool) {
 		case token.XOR:
 			r = x ^ y
 		case token.SHL:
-			if y < 0 || y > 62 {
+			if y < 0 {
+				return 0, false
+			}
+			if y > 62 {
+				// every bit is shifted out of a type narrower than 64 bits
+				if lo, hi := intRange(t.Typ); isIntType(t.Typ) && lo >= -(1<<31) && hi <= 1<<32 {
+					r = 0
+					break
+				}
 				return 0, false
 			}
 			r = x << uint(y)
 		case token.SHR:
-			if y < 0 || y > 62 {
+			if y < 0 {
 				return 0, false
+			}
+			if y > 62 {
+				if x >= 0 {
+					r = 0
+				} else {
+					r = -1
+				}
+				break
 			}
 			r = x >> uint(y)
 		case token.AND_NOT:
@@ -314,6 +342,128 @@ func overTable(t *Term) bool {
 		}
 	}
 	return false
+}
+
+// leavesOf: the distinct symbolic integer leaves of a compound integer term (nil when something else occurs).
+func leavesOf(t *Term) []*Term {
+	var out []*Term
+	seen := map[string]bool{}
+	bad := false
+	var visit func(x *Term)
+	visit = func(x *Term) {
+		if x == nil || bad {
+			return
+		}
+		switch x.Op {
+		case "const":
+			return
+		case "bin":
+			visit(x.Args[0])
+			visit(x.Args[1])
+			return
+		case "conv":
+			if isIntType(x.Typ) && isIntType(x.Args[0].Typ) {
+				visit(x.Args[0])
+				return
+			}
+		}
+		if !isIntType(x.Typ) {
+			bad = true
+			return
+		}
+		if k := x.String(); !seen[k] {
+			seen[k] = true
+			out = append(out, x)
+		}
+	}
+	visit(t)
+	if bad {
+		return nil
+	}
+	return out
+}
+
+// finiteSplit2: a comparison of an expression of TWO small-domain leaves with a constant (a bit set built from
+// two elements and tested: ((1<<f0)|(1<<f1))&2 != 0). The first leaf's region is partitioned into the classes
+// of values for which the comparison is the same function of the second leaf; the path forks over the classes,
+// and within a class the second leaf is split as in finiteSplit. Exact; only when the two regions together hold
+// at most 65536 pairs.
+func (w *Walker) finiteSplit2(a *Term, op token.Token, n int64) (decided bool, result bool) {
+	if a.Op != "bin" && a.Op != "conv" {
+		return false, false
+	}
+	ls := leavesOf(a)
+	if len(ls) != 2 {
+		return false, false
+	}
+	regs := make([]IntervalSet, 2)
+	for i, l := range ls {
+		cur, has := w.state.Ints[l.String()]
+		if !has {
+			cur = fullSet(l.Typ)
+		}
+		regs[i] = cur
+	}
+	if s0, s1 := regionSize(regs[0]), regionSize(regs[1]); s0 > finiteMax || s1 > finiteMax || s0*s1 > finiteMax {
+		return false, false
+	}
+	k0, k1 := ls[0].String(), ls[1].String()
+	v0s, v1s := valuesOf(regs[0]), valuesOf(regs[1])
+	classes := map[string][]int64{}
+	var order []string
+	for _, v0 := range v0s {
+		sig := make([]byte, len(v1s))
+		for j, v1 := range v1s {
+			x, ok := evalEnv(a, map[string]int64{k0: v0, k1: v1})
+			if !ok {
+				return false, false
+			}
+			if cmpHolds(op, x, n) {
+				sig[j] = 1
+			}
+		}
+		key := string(sig)
+		if _, seen := classes[key]; !seen {
+			order = append(order, key)
+		}
+		classes[key] = append(classes[key], v0)
+	}
+	if len(order) > 8 {
+		return false, false
+	}
+	pick := 0
+	if len(order) > 1 {
+		pick = w.choose(len(order), k0)
+		w.state.Ints[k0] = setOf(classes[order[pick]])
+		w.state.IntT[k0] = ls[0]
+		w.logDecision(fmt.Sprintf("%s in class %d of %s", k0, pick, cut(a.String(), 40)))
+	}
+	sig := order[pick]
+	var sat, uns []int64
+	for j, v1 := range v1s {
+		if sig[j] == 1 {
+			sat = append(sat, v1)
+		} else {
+			uns = append(uns, v1)
+		}
+	}
+	switch {
+	case len(uns) == 0 && len(sat) > 0:
+		return true, true
+	case len(sat) == 0 && len(uns) > 0:
+		return true, false
+	case len(sat) == 0 && len(uns) == 0:
+		w.abort("infeasible", "empty region for "+k1)
+	}
+	res := w.choose(2, k1) == 0
+	if res {
+		w.state.Ints[k1] = setOf(sat)
+	} else {
+		w.state.Ints[k1] = setOf(uns)
+	}
+	w.state.IntT[k1] = ls[1]
+	w.logDecision(fmt.Sprintf("%s%s%d=%v", cut(a.String(), 40), op, n, res))
+	return true, res
 }
 
 // isGround: a literal aggregate of constants (a folded table of records).
